@@ -236,7 +236,8 @@ ASSUMPTIONS = [
 
 
 def dead_probes(tier, cov):
-    dead = [k for k in ("file_link", "xfile_link", "dir_link", "dangling_link", "outside_link", "realpath_cache_eviction")
+    # (realpath_cache_eviction depends on an internal attribute of the SUT and is optional)
+    dead = [k for k in ("file_link", "xfile_link", "dir_link", "dangling_link", "outside_link")
             if cov["faults_fired"].get(k, 0) == 0]
     dead += [k for k in ("aliased_references", "member_reached_by_link") if cov["probes"].get(k, 0) == 0]
     return dead if cov["evaluations"] >= 100 else []
